@@ -72,6 +72,8 @@ def ptm(e, top=False):
         return "%empty" if top else ""
     if k == "marker":
         return "." + e[1]
+    if k == "la":
+        return "(?= " + " & ".join(("!" if neg else "") + nt for nt, neg in e[1]) + ")"
     raise ValueError(k)
 
 
@@ -112,6 +114,8 @@ def pgo(e, symid, ntidx):
         return "verifSeq()"
     if k == "marker":
         return "verifMarker()"
+    if k == "la":
+        return "verifLook([]int{%s}, []bool{%s})" % (", ".join(str(ntidx[nt]) for nt, _ in e[1]), ", ".join("true" if neg else "false" for _, neg in e[1]))
     raise ValueError(k)
 
 
@@ -121,6 +125,8 @@ def data_file(g, meta, pkgname):
     terms = [symid[t] for t in g["terms"] if not g.get("input_terms") or t in g["input_terms"]]
     L = ["package " + pkgname, "", "// printed by vlib/extgram.py from corpus grammar %s" % g["name"], ""]
     L.append("var verifTerms = []int32{%s}" % ", ".join(map(str, terms)))
+    uses_la = "verifLook(" in "".join(pgo(e, symid, ntidx) for _, alts in g["nts"] for e, _ in alts)
+    L.append("const verifUsesLookaheads = %s" % ("true" if uses_la else "false"))
     L.append("var verifBodies []*verifNode")
     L.append("var verifRuleArrow [][]int")
     L.append("func verifSetup() {\n\tif verifBodies != nil {\n\t\treturn\n\t}")
@@ -197,4 +203,23 @@ EXT13 = [
     # two separated lists with the same element and different separators; a list inside the first-declared, self-referencing nonterminal
     EG("y11", "abcd", ["Sx"], [("Sx", [(S(L(T("a"), True, ["b", "c"]), T("d")), "R1"), (S(T("d"), L(T("a"), True, ["c", "b"])), "R2")])], cap=1100),
     EG("y12", "abcd", ["Sx"], [("Sx", [(S(L(T("a"), True), T("b")), "R1"), (S(T("c"), N("Sx"), T("d")), "R2")])]),
+]
+
+
+def LA(*preds):
+    return ("la", [(p.lstrip("!"), p.startswith("!")) for p in preds])
+
+
+# runtime lookaheads (C08): the choice between alternatives is made by parsing ahead with the predicate nonterminals
+EXTLA = [
+    EG("z01", "abcd", ["Sx"], [("Sx", [(S(LA("Pa"), N("Mx")), "AltM"), (S(LA("!Pa"), N("Nx")), "AltN")]),
+                                ("Pa", [(seq("a", "b"), None)]),
+                                ("Mx", [(S(T("a"), L(A(T("a"), T("b"), T("c")), False)), "M")]),
+                                ("Nx", [(S(T("a"), L(A(T("a"), T("b"), T("c")), False), T("d")), "N")])]),
+    EG("z02", "abcd", ["Sx"], [("Sx", [(S(LA("Pa", "Pb"), N("Xx")), "AltX"), (S(LA("Pa", "!Pb"), N("Yy")), "AltY"), (S(LA("!Pa"), N("Zz")), "AltZ")]),
+                                ("Pa", [(seq("a"), None)]), ("Pb", [(seq("a", "b"), None)]),
+                                ("Xx", [(S(T("a"), T("b"), O(T("c"))), "X")]), ("Yy", [(S(T("a"), L(T("a"), True), O(T("c"))), "Y")]), ("Zz", [(S(L(T("d"), True), O(T("a"))), "Z")])]),
+    EG("z03", "abc", ["Sx"], [("Sx", [(S(L(N("It"), True), T("c")), "Top")]),
+                               ("It", [(S(LA("Qq"), T("a"), T("a")), "Pair"), (S(LA("!Qq"), T("a")), "Single"), (seq("b"), "B")]),
+                               ("Qq", [(seq("a", "a", "b"), None), (seq("a", "a", "c"), None)])]),
 ]
